@@ -436,7 +436,9 @@ func (c *RefClient) response(id int, result json.RawMessage, isErr bool, code st
 			RID *string `json:"rid"`
 			resourceSet
 		}
-		if json.Unmarshal(result, &rr) == nil && rr.RID != nil && c.Proto >= 1002000 {
+		// a resource response subscribes the resource; before protocol 1.2.0 only
+		// for new requests (call and auth answered with the bare rid then)
+		if json.Unmarshal(result, &rr) == nil && rr.RID != nil && (c.Proto >= 1002000 || p.Action == "new") {
 			c.addResources(&rr.resourceSet)
 			if e, isErrEntry := rr.Errors[*rr.RID]; isErrEntry && e != nil {
 				// error in place of the resource: not counted, and ambiguous from now on
